@@ -1,6 +1,7 @@
 package main
 
 import (
+	"context"
 	"errors"
 	"fmt"
 
@@ -20,9 +21,13 @@ var errInjectedAbort = errors.New("verif: injected abort (simulated time-out)")
 
 // historyCheck runs the object sequence on one much-used evaluator A and, at
 // every step, on a freshly prepared evaluator B holding A's variables.
-func historyCheck(c *ev.Ctx, id, class, script string, noOpt bool, vars map[string]model.Value, objs []map[string]model.Value, abortAt map[int]int64) (judged int, faults map[string]int) {
+func historyCheck(c *ev.Ctx, id, class, script string, noOpt bool, vars map[string]model.Value, objs []map[string]model.Value, abortAt map[int]int64, cancelRun int, cancelStep int64) (judged int, faults map[string]int) {
 	faults = map[string]int{}
-	a, err := eng.New(script, eng.Options{Vars: vars, NoOptimize: noOpt})
+	// a real context (set before Prepare) that the hook cancels during run `cancelRun`:
+	// a genuine time-out inside the history; later runs happen under the expired context
+	ctx, cancel := context.WithCancel(context.Background())
+	defer cancel()
+	a, err := eng.New(script, eng.Options{Vars: vars, NoOptimize: noOpt, Ctx: ctx})
 	if err != nil {
 		c.Count("skipped/rejected by Prepare", 1)
 		return 0, faults
@@ -44,7 +49,26 @@ func historyCheck(c *ev.Ctx, id, class, script string, noOpt bool, vars map[stri
 	}
 	for i, o := range objs {
 		obj, _ := eng.FieldsToMap(o)
-		if k, ok := abortAt[i]; ok {
+		if i == cancelRun {
+			a.OnStep = func(m *vm.VM, ip int, op code.Opcode) error {
+				if a.Steps() > cancelStep {
+					cancel()
+				}
+				return nil
+			}
+			ob := a.Exec(obj)
+			a.OnStep = nil
+			if ob.Budget {
+				return judged, faults
+			}
+			if ob.Panicked {
+				report(i, "panic escaped after the context was cancelled: "+ob.PanicMsg, nil)
+				return judged, faults
+			}
+			if ctx.Err() != nil {
+				faults["context-cancelled"]++
+			}
+		} else if k, ok := abortAt[i]; ok {
 			// simulated time-out landing after k instructions of this run
 			a.OnStep = func(m *vm.VM, ip int, op code.Opcode) error {
 				if a.Steps() > k {
@@ -65,7 +89,7 @@ func historyCheck(c *ev.Ctx, id, class, script string, noOpt bool, vars map[stri
 				faults["abort"]++
 			}
 		} else {
-			b, err := eng.New(script, eng.Options{NoOptimize: noOpt})
+			b, err := eng.New(script, eng.Options{NoOptimize: noOpt, Ctx: ctx})
 			if err != nil {
 				report(i, "fresh Prepare of the same script failed: "+err.Error(), nil)
 				return judged, faults
@@ -150,7 +174,11 @@ func c07(c *ev.Ctx) {
 			}
 			objs = append(objs, o)
 		}
-		judged, faults := historyCheck(c, id, "history", script, r.Intn(2) == 0, env.Vars, objs, abortAt)
+		cancelRun, cancelStep := -1, int64(0)
+		if r.Intn(4) == 0 {
+			cancelRun, cancelStep = r.Intn(hlen-1), int64(r.Intn(80))
+		}
+		judged, faults := historyCheck(c, id, "history", script, r.Intn(2) == 0, env.Vars, objs, abortAt, cancelRun, cancelStep)
 		nf := 0
 		for k, v := range faults {
 			c.Count("faults/"+k, v)
